@@ -47,7 +47,7 @@ def check_parse(case, ctx):
     Bip32Path, BaseWallet, B85 = _impl()
     L, root = list(case["path"]), case["root"]
     s = render(L, case["marks"], root)
-    st_, p = call(Bip32Path.parse, s)
+    st_, p = call(Bip32Path.parse, s=s) if root == "M" else call(Bip32Path.parse, s)
     if st_ == "exc":
         raise Violation("C17/parse/raised", "Bip32Path.parse(%r) raised %r" % (s, p))
     expect_eq("C17/parse/list", "Bip32Path.parse(%r).to_list()" % s, list(p.to_list()), L)
